@@ -244,4 +244,20 @@ theorem C01_after_phase1_walks_total (alg : Nat) (g g' : G) (hA : AdjL g) (h : p
   ⟨tightTree_total g' (adjL_phase1 alg g g' hA h).toAdj.incWF, (adjL_phase1 alg g g' hA h).toAdj.incWF,
     (adjL_phase1 alg g g' hA h).toAdj.edgesWF⟩
 
+
+/-- **C01, phases 0–1 and the first walks of phase 2 for every input**: for any non-empty edge list and any options the
+    pre-processing returns (`C01_preprocess_total`), every component it returns is adjacency consistent (`adjL_preProcess`),
+    and for each of them and either breaker: both cycle tests and the depth-first breaker return, and whatever state phase 1
+    returns, the tight-tree walk of the layerers terminates on it -/
+theorem C01_upto_tight_tree_any_input (cfg : Cfg) (es : InEdges) (hne : es ≠ []) :
+    ∃ cs, preProcess cfg es = .ok cs ∧ ∀ c ∈ cs,
+      (∃ b, hasCycles (removeTwoNodeCycles c.1) = .ok b) ∧
+      (∃ g2, execDepthFirst (removeTwoNodeCycles c.1) = .ok g2 ∧ ∃ b, hasCycles g2 = .ok b) ∧
+      ∀ alg g', phase1 alg c.1 = .ok g' → (∃ r, tightTree g' = .ok r) ∧ IncWF g' ∧ EdgesWF g' := by
+  obtain ⟨cs, hcs⟩ := preProcess_total cfg es hne
+  refine ⟨cs, hcs, fun c hc => ?_⟩
+  have hA := adjL_preProcess cfg es cs hcs c hc
+  exact ⟨C01_phase1_first_test_total c.1 hA, C01_phase1_dfs_then_test_total c.1 hA,
+    fun alg g' h => C01_after_phase1_walks_total alg c.1 g' hA h⟩
+
 end Autog
